@@ -68,6 +68,11 @@ DEVIATIONS = {
         'a demo storage that created its own changes packs them with garbage collection over the changes alone: as soon '
         'as a reference leads into the base (or the root lives there) the pack raises KeyError, and the objects it '
         'visited before - at least the root - have lost their revisions in the changes (committed data reads as the base again)',
+    dd.STALE_CAUSE:
+        'after a pack of the changes removed the first change(s) made to an object of a lower layer, loadBefore below the '
+        'first revision left finds "in the changes, but nothing earlier" and serves the revision of the lower layer, which '
+        'the packed-away revisions had replaced: a snapshot from before the pack reads an older state than before the pack '
+        '(a packed Mapping/FileStorage answers None there: ReadConflictError)',
     dd.BLOB_CAUSE:
         'storeBlob hands the record straight to the changes storage, which checks the serial against its own revisions '
         'only: for an object that so far lives in the layers below, a stale serial (an older revision, or none at all) '
@@ -331,6 +336,11 @@ def run(ctx):
         expected_cex.append(('OidFreshBothLayers', 'new_oid-reissues-uncreated-oid'))
         jobs.append((_job_cex, (ctx.scratch, 'cex-new_oid', cex_c, [], ['OidFreshBothLayers'], 2, to)))
 
+    temp_key = ('mapping', 'mapping', True)
+    temp_cex_c = mconsts(temp_key, mode=as_tree, PrintObs=True, **sized(code_kw, temp_key))
+    if as_tree['PackRevealsBase'] and temp_key in keys:
+        expected_cex.append(('PackServesNoStaleRevision', dd.STALE_CAUSE))
+        jobs.append((_job_cex, (ctx.scratch, 'cex-pack-stale', temp_cex_c, [], ['PackServesNoStaleRevision'], 2, to)))
     blob_key = ('file', 'file', False, 'blob')
     blob_cex_c = mconsts(blob_key, mode=as_tree, PrintObs=True, **code_kw)
     if as_tree['BlobStoreSkipsBaseCheck'] and blob_key in keys:
@@ -387,7 +397,8 @@ def run(ctx):
             if r.violation != payload:
                 raise tlc.TLCError('ZDemo/%s with the code as it is: expected a counterexample to %s, got %s\n%s' % (
                     name, payload, r.violation, r.output[-2000:]))
-            cex_traces.append((name, r.trace) + ((blob_key, blob_cex_c) if name == 'cex-storeBlob' else (cex_key, cex_c)))
+            cex_traces.append((name, r.trace) + ((blob_key, blob_cex_c) if name == 'cex-storeBlob' else
+                                                 (temp_key, temp_cex_c) if name == 'cex-pack-stale' else (cex_key, cex_c)))
         elif kind == 'scripts':
             k = byname[name[len('scripts-'):]]
             c = mconsts(k, mode=as_tree, **scripts_kw(k))
